@@ -130,6 +130,52 @@ fn exec_oracle(mode: &str, original: &str, rewritten: &str, driver: &str) -> Str
     }
 }
 
+/// C09 stated on one output: (a) every mapping with a source points inside the input text; (b) every mapping whose generated
+/// position starts an identifier copied from the input (not an injected name) points at the same identifier in the input.
+/// Returns (first mapping outside the input, first copied identifier mapped elsewhere).
+fn map_position_checks(content: &str, input: &str) -> (Option<String>, Option<String>) {
+    let map = match trailer_map(content) { Some(m) => m, None => return (Some("no map".to_string()), None) };
+    let in_lines: Vec<Vec<u16>> = input.split('\n').map(|l| l.encode_utf16().collect()).collect();
+    let out_lines: Vec<Vec<u16>> = content.split('\n').map(|l| l.encode_utf16().collect()).collect();
+    let is_start = |c: u16| (c as u8 as char).is_ascii_alphabetic() && c < 128 || c == b'_' as u16 || c == b'$' as u16;
+    let is_part = |c: u16| c < 128 && ((c as u8 as char).is_ascii_alphanumeric() || c == b'_' as u16 || c == b'$' as u16);
+    let ident_at = |lines: &Vec<Vec<u16>>, l: u32, c: u32| -> Option<String> {
+        let line = lines.get(l as usize)?;
+        let c = c as usize;
+        if c >= line.len() || !is_start(line[c]) || (c > 0 && is_part(line[c - 1])) { return None; }
+        let mut e = c;
+        while e < line.len() && is_part(line[e]) { e += 1; }
+        Some(String::from_utf16_lossy(&line[c..e]))
+    };
+    let mut outside = None;
+    let mut mismapped = None;
+    for t in map.tokens() {
+        if !t.has_source() { continue; }
+        let (sl, sc) = (t.get_src_line(), t.get_src_col());
+        let inside = (sl as usize) < in_lines.len() && (sc as usize) <= in_lines[sl as usize].len();
+        if !inside && outside.is_none() {
+            outside = Some(format!("generated {}:{} -> {}:{} (input has {} lines)", t.get_dst_line(), t.get_dst_col(), sl, sc, in_lines.len()));
+        }
+        if let Some(id) = ident_at(&out_lines, t.get_dst_line(), t.get_dst_col()) {
+            let injected = id.starts_with("__datadog_") || id == "_ddiast" || id == "let" || id == "undefined" || id == "null" || id == "call" || id == "apply";
+            // a member name right after an injected temporary (`__datadog_test_1.call`) or after `_ddiast.` is injected too
+            let line = &out_lines[t.get_dst_line() as usize];
+            let c = t.get_dst_col() as usize;
+            let after_dot = c > 0 && line[c - 1] == b'.' as u16;
+            if injected || after_dot { continue; }
+            if inside {
+                // a private name `#x` is one token starting at `#`
+                let sc2 = if in_lines[sl as usize].get(sc as usize) == Some(&(b'#' as u16)) { sc + 1 } else { sc };
+                let orig = ident_at(&in_lines, sl, sc2);
+                if orig.as_deref() != Some(id.as_str()) && mismapped.is_none() {
+                    mismapped = Some(format!("generated {}:{} `{}` -> {}:{} {:?}", t.get_dst_line(), t.get_dst_col(), id, sl, sc, orig));
+                }
+            }
+        }
+    }
+    (outside, mismapped)
+}
+
 fn count_hooks(code: &str) -> usize {
     code.matches("_ddiast.").count()
 }
@@ -290,6 +336,16 @@ fn main() {
                     let verdict = exec_oracle("hooks", &w.source, &code, v.as_str().unwrap());
                     println!("--- exec oracle: {verdict}");
                     !panicked && errored.is_none() && verdict.starts_with("HOOK-ARGS-WRONG")
+                }
+                "map_points_outside_input" => {
+                    let (outside, _) = map_position_checks(&content, &w.source);
+                    println!("--- map positions outside the input: {:?}", outside);
+                    outside.is_some() == v.as_bool().unwrap()
+                }
+                "copied_identifier_mismapped" => {
+                    let (_, mis) = map_position_checks(&content, &w.source);
+                    println!("--- copied identifier mapped elsewhere: {:?}", mis);
+                    mis.is_some() == v.as_bool().unwrap()
                 }
                 "panics" => panicked == v.as_bool().unwrap(),
                 "errors" => errored.is_some() == v.as_bool().unwrap(),
